@@ -415,7 +415,7 @@ func c10CollapseThrough(c *core.Check) {
 // c10Provenance: two values whose origin matters in the margin code.
 func c10Provenance(c *core.Check) {
 	p := c.Prog
-	r := c.Rule("R12", "values used by the margin logic have the origin CSS 2.1 gives them: clearance is computed against the collapsed margin (every getClearance call of the block layout receives a result of collapseMargin, the float layout a constant 0), and blockContainerLayout decides whether margins adjoin from the used height of the box (box.Height against auto), never from the computed `height` keyword (a percentage height that computes to auto is auto)", 4)
+	r := c.Rule("R12", "values used by the margin logic have the origin CSS 2.1 gives them: clearance is computed against the collapsed margin (every getClearance call of the block layout receives a result of collapseMargin, the float layout a constant 0), and blockContainerLayout decides whether margins adjoin from the used height of the box (box.Height against auto), never from the computed `height` keyword (a percentage height that computes to auto is auto)", 5)
 	gc := p.Fn("html/layout", "getClearance")
 	if gc == nil {
 		r.Anchor("html/layout.getClearance")
